@@ -615,12 +615,12 @@ extern "C" void h_ni_public()
             p.addHint(QXmppMessage::Hint(1u << i));
         }
     }
-    if (vp_bool()) { set_stanza_id(p); }
+    if (vp_case_bool(0)) { set_stanza_id(p); }   // list-valued fields: presence is a structural case (VP_CASE bit), not a symbolic flag
     if (vp_bool()) { set_origin_id(p); }
     if (vp_bool()) { set_mix_jid(p); }
     if (vp_bool()) { set_mix_nick(p); }
     if (vp_bool()) { set_eme(p); }
-    if (vp_bool()) { set_fallback_marker(p); }
+    if (vp_case_bool(1)) { set_fallback_marker(p); }
     QXmppMessage m(p);
     m.setCarbonForwarded(false);   // detach the copy here, under concrete control flow
     if (vp_bool()) { set_body(m); }
